@@ -254,17 +254,21 @@ func explainedByDynamic(v cty.Value, want cty.Type) bool {
 	return explainedBy(v, want, dynamicForCollection, &n) && n > 0
 }
 
-func explainedByBoth(v cty.Value, want cty.Type) bool {
+func explainedByBoth(v cty.Value, want cty.Type, looseList bool) bool {
 	n, m := 0, 0
 	return explainedBy(v, want, func(x cty.Value, w cty.Type) bool {
-		// (a DynamicVal for a list/set of a STATIC element type counts here only together with
-		// listAtEmptyMapSite: the block values differ because of mistyped empty maps)
-		if x.Type() == cty.DynamicPseudoType && !x.IsKnown() && (w.IsListType() || w.IsSetType()) {
+		// (a DynamicVal for a list/set of a STATIC element type counts only when looseList says that a
+		// list site of this body has block values that differ by mistyped empty maps)
+		if dynamicForCollection(x, w) || looseList && dynamicForCollectionLoose(x, w) {
 			m++
 			return true
 		}
 		return mistypedEmptyMap(x, w)
 	}, &n) && m > 0
+}
+
+func dynamicForCollectionLoose(v cty.Value, want cty.Type) bool {
+	return v.Type() == cty.DynamicPseudoType && !v.IsKnown() && (want.IsListType() || want.IsSetType())
 }
 
 // listAtEmptyMapSite: some BlockListSpec / BlockSetSpec site of the body has blocks whose separately
@@ -312,7 +316,7 @@ func (b blocksBody) PartialContent(s *hcl.BodySchema) (*hcl.BodyContent, hcl.Bod
 	return &hcl.BodyContent{Attributes: hcl.Attributes{}, Blocks: b.blocks, MissingItemRange: b.rng}, blocksBody{rng: b.rng}, nil
 }
 func (b blocksBody) JustAttributes() (hcl.Attributes, hcl.Diagnostics) { return hcl.Attributes{}, nil }
-func (b blocksBody) MissingItemRange() hcl.Range                        { return b.rng }
+func (b blocksBody) MissingItemRange() hcl.Range                       { return b.rng }
 
 type emSite struct {
 	typeName string
@@ -357,7 +361,9 @@ func emptyMapSites(root hcldec.Spec, body hcl.Body, ctx *hcl.EvalContext, out *[
 						m++
 						return true
 					}
-					return dynamicForCollection(x, w)
+					// (inside a site the list may also come back as DynamicVal BECAUSE its blocks
+					// differ by mistyped empty maps; the site counts only if such a map is present)
+					return dynamicForCollectionLoose(x, w)
 				}, &n) {
 					ok = false
 					break
@@ -582,7 +588,7 @@ func run(cfg *hv.RunCfg) error {
 	cf := &hv.CaseFile{Dir: cfg.Out, Name: "c08cases",
 		Imports: "From Coq Require Import QArith String.\nFrom HclV Require Import Base.Prelude Cty.Values Cty.Convert Cty.Ops Eval.Impl Eval.Funcs Dec.Spec Dec.Decode Dec.DecodeCheck.\nOpen Scope string_scope.\nOpen Scope Z_scope.\nOpen Scope list_scope.\n(* traversal steps inside expressions are printed as SAttr/SIndex: the bare name is the step constructor of Eval/Impl.v, the AttrSpec constructor is printed qualified *)\nNotation SAttr := HclV.Eval.Impl.SAttr (only parsing).\nDefinition cx : ctx := " + hv.CoqCtx(ctx, hdr) + ".\n",
 		Ctype:   "dcase", Checker: "check_decode_cases",
-		Extras:  [][2]string{{"skipped", "skipped_decode_cases"}, {"noted", "noted_decode_cases"}}}
+		Extras: [][2]string{{"skipped", "skipped_decode_cases"}, {"noted", "noted_decode_cases"}}}
 
 	var jobs []job
 	if cfg.Replay != "" {
@@ -834,7 +840,7 @@ func runJob(j job, ctx *hcl.EvalContext, rep *hv.Report, cf *hv.CaseFile) {
 					kind = "blocklist-dynamic-ununifiable"
 				case kinds["blockmap(multi-label)"] && explainedByEmptyMap(o.o.val, ity):
 					kind = "blockmap-multilabel-empty-type"
-				case nUn > 0 && kinds["blockmap(multi-label)"] && explainedByBoth(o.o.val, ity) && listAtEmptyMapSite(spec, body, ctx):
+				case nUn > 0 && kinds["blockmap(multi-label)"] && explainedByBoth(o.o.val, ity, listAtEmptyMapSite(spec, body, ctx)):
 					kind = "blocklist-dynamic-ununifiable" // both pinned shapes in one value
 				}
 				fail(kind, fmt.Sprintf("%s returned %#v; implied type %#v: %v", o.name, o.o.val.Type(), ity, errs[0]))
